@@ -420,5 +420,6 @@ func Run(c *gen.Ctx) error {
 		meta.Samples = append(meta.Samples, descr[2], descr[6])
 	}
 	concurrentStreams(c, gen.NewRand(c.Seed+17), meta)
+	failingStreams(meta)
 	return meta.Write(c.OutDir)
 }
